@@ -6,7 +6,8 @@ confirm: in a scratch worktree of /repo HEAD (under /tmp, removed afterwards): a
 detect : run tools/check.py for every property in meta.json["checks"] (default: the property it breaks) against a scratch
          worktree of /repo HEAD with patch.diff applied (isolated work dir and lean tree under /tmp/seediso; equivalent to
          `git -C /repo apply patch.diff; check; git -C /repo checkout -- .` but safe while other work uses /repo), and record
-         which checks raised VIOLATION.
+         which checks raised VIOLATION. Each seed is first tried at plain quick depth, then with the command as registered
+         (which deepens the search on a changed tree); "depth" records which one caught it.
 Results are written into the seed's meta.json.
 """
 import json, os, shutil, subprocess, sys, time
@@ -82,22 +83,30 @@ def detect(d, meta):
         sh(["rsync", "-a", "--delete", os.path.join(VERIF, "lean") + "/", lean + "/"])
         env = dict(os.environ, VERIF_REPO=repo, VERIF_WORKDIR=os.path.join(ISO, "work"), VERIF_LEAN=lean, VERIF_OUTDIR=os.path.join(ISO, "out"))
         for prop in meta.get("checks", [meta["property"]]):
-            t0 = time.time()
-            p = subprocess.run([sys.executable, os.path.join(HERE, "check.py"), prop, "--tier", "quick"], cwd=VERIF, env=env, text=True,
-                               stdout=subprocess.PIPE, stderr=subprocess.STDOUT, timeout=7200)
-            rc, out = p.returncode, p.stdout
-            lines = [l for l in out.split("\n") if l.startswith("VIOLATION") or l.startswith("KNOWN-FINDING") or l.startswith(prop + " ")]
-            res[prop] = {"exit": rc, "detected": rc == 1 and any(l.startswith("VIOLATION") for l in lines),
-                         "concrete_witness": any(l.startswith("VIOLATION") and "no-failing-input-found" not in l for l in lines),
-                         "lines": lines[:6], "wall_s": round(time.time() - t0, 1)}
-            for l in lines:
-                if l.startswith("VIOLATION") and "replay=" in l:
-                    rp = l.split("replay=")[1].split()[0]
-                    try:
-                        js = json.load(open(rp))
-                        res[prop]["replay_excerpt"] = {k: js.get(k) for k in ("stage", "obligation", "input")}
-                    except Exception:
-                        pass
+            # the registered quick command searches at thorough depth whenever the tree differs from the validated
+            # baseline (check.py, change-triggered deepening). To record WHICH depth catches a seed, the plain quick
+            # depth is tried first (VERIF_NO_ESCALATE) and the command as registered only if that finds nothing;
+            # false-alarm controls (expect == pass) run the command as registered only.
+            passes = [("registered", {})] if meta.get("expect") == "pass" else [("quick-depth", {"VERIF_NO_ESCALATE": "1"}), ("registered", {})]
+            for depth, extra in passes:
+                t0 = time.time()
+                p = subprocess.run([sys.executable, os.path.join(HERE, "check.py"), prop, "--tier", meta.get("detect_tier", "quick")], cwd=VERIF,
+                                   env=dict(env, **extra), text=True, stdout=subprocess.PIPE, stderr=subprocess.STDOUT, timeout=14400)
+                rc, out = p.returncode, p.stdout
+                lines = [l for l in out.split("\n") if l.startswith("VIOLATION") or l.startswith("KNOWN-FINDING") or l.startswith(prop + " ")]
+                res[prop] = {"exit": rc, "detected": rc == 1 and any(l.startswith("VIOLATION") for l in lines),
+                             "concrete_witness": any(l.startswith("VIOLATION") and "no-failing-input-found" not in l for l in lines),
+                             "depth": depth, "lines": [l[:300] for l in lines[:6]], "wall_s": round(time.time() - t0, 1)}
+                for l in lines:
+                    if l.startswith("VIOLATION") and "replay=" in l:
+                        rp = l.split("replay=")[1].split()[0]
+                        try:
+                            js = json.load(open(rp))
+                            res[prop]["replay_excerpt"] = {k: js.get(k) for k in ("stage", "obligation", "input")}
+                        except Exception:
+                            pass
+                        break
+                if res[prop]["detected"] and res[prop]["concrete_witness"]:
                     break
     finally:
         sh(["git", "-C", REPO, "worktree", "remove", "--force", repo])
